@@ -393,6 +393,7 @@ macro_rules! glue {
                 251 => { l.reset_match(); l.return_(Ok(rule)) }
                 d if d >= 3 && d < 200 && d % 2 == 1 => l.switch(rs((d - 3) / 2)),
                 d if d >= 4 && d < 200 => l.switch_and_return(rs((d - 4) / 2), Ok(rule)),
+                d if d >= 200 && d < 240 => l.switch_and_return(rs(d - 200), Err(1000 + rule as u32)),
                 _ => l.return_(Ok(rule)),
             }
         }
